@@ -484,7 +484,7 @@ def merge_order(draw, sim: Sim, extras: bool = True) -> List[Dict[str, Any]]:
 
 @st.composite
 def sim_case(draw, o: Optional[Opts] = None, max_ranks: int = 2, same_steps: bool = True,
-             extras_trace_span: bool = False, nranks_choices: Optional[List[int]] = None) -> Dict[str, Any]:
+             extras_trace_span: bool = False, nranks_choices: Optional[List[int]] = None, renumber: bool = True) -> Dict[str, Any]:
     o = o or Opts()
     nranks = pick(draw, [1, 1, 1, 2, 2, 3][: 3 + max(0, max_ranks - 1) * 2][: 6]) if max_ranks > 1 else 1
     nranks = min(nranks, max_ranks)
@@ -520,6 +520,10 @@ def sim_case(draw, o: Optional[Opts] = None, max_ranks: int = 2, same_steps: boo
                 span["ts"] = epoch
                 events.append(span)
         ranks.append({"rank": r, "events": events})
+    if renumber:
+        from hv.gen.intervals import renumber_ranks
+
+        renumber_ranks(draw, ranks)  # the loaded ranks need not be 0..n-1
     from hv.hta_io import prelude_strategy
 
     return {"ranks": ranks, "fmt": pick(draw, ["json", "gz"]), "mp": pick(draw, [False] * 5 + [True]),
